@@ -307,15 +307,17 @@ def check_by_name(F, rep):
         can = analyze_fn(F, cf)
         outs = []
         for t, st, calls in can.paths() or []:
-            gets = [c for c in calls if c.callee_qual == "string_table::StringTable::get"]
+            gets = [c for c in calls if c.callee_qual in ("string_table::StringTable::get", "string_table::StringTable::get_raw")]
             outs.append((t, st, gets))
         msgs = []
         n_eq = n_false = 0
+        eq_forms = set()
         for t, st, gets in outs:
             if len(gets) != 1:
                 msgs.append("the predicate does not look the name up exactly once")
                 continue
             g = gets[0]
+            raw = g.callee_qual.endswith("get_raw")
             idx = norm(g.arg_values()[1])
             if not (idx[0] == "fld" and idx[2] == "sh_name"):
                 msgs.append("the name is looked up at %s, expected shdr.sh_name" % show(idx)[:100])
@@ -323,12 +325,35 @@ def check_by_name(F, rep):
                 n_false += 1
                 if not (t.op == "const" and t.args[1] == 0):
                     msgs.append("an unreadable name yields %s instead of `false`" % pp(t)[:80])
-            else:
-                n_eq += 1
-                okeq = t.op == "bin" and t.args[0] == "Eq" and (T.payload(g.result, "Ok") in (t.args[1], t.args[2]))
-                other = t.args[2] if okeq and t.args[1] is T.payload(g.result, "Ok") else (t.args[1] if okeq else None)
-                if not okeq or other is None or "sh_name" in pp(other) or other.op == "const":
-                    msgs.append("the predicate is %s, expected query == strtab.get(sh_name)" % pp(t)[:160])
+                continue
+            nm_v = T.payload(g.result, "Ok")
+            cmp_t = None
+            if t.op == "bin" and t.args[0] == "Eq" and nm_v in (t.args[1], t.args[2]):
+                cmp_t = t
+            elif t.op == "const":
+                # `matches!(.., Ok(n) if n == query)`: the comparison is a path condition and the value its truth
+                for f in st.facts:
+                    if f[0] in ("true", "false") and f[1].op == "bin" and f[1].args[0] == "Eq" and nm_v in (f[1].args[1], f[1].args[2]) \
+                            and (f[0] == "true") == bool(t.args[1]):
+                        cmp_t = f[1]
+            if cmp_t is None:
+                msgs.append("the predicate is %s, expected query == strtab.get(sh_name)" % pp(t)[:160])
+                continue
+            other = cmp_t.args[2] if cmp_t.args[1] is nm_v else cmp_t.args[1]
+            if "sh_name" in pp(other) or other.op == "const":
+                msgs.append("the name is compared with %s, not with the query" % pp(other)[:100])
+            if raw:
+                # raw bytes may only be compared with the bytes of the query string (a &str is valid UTF-8, so the comparisons agree)
+                from ..engine import State
+                env_ty = nm(cf["body"]["locals"][1]["ty"]) if len(cf["body"]["locals"]) > 1 else ""
+                env = T.refval(clo) if env_ty.startswith("&") else clo
+                site = searches[0]       # the captures are read in the state in which the search is started
+                inst = program(F).subst(an, State(an.exit_env.get(site.block, {}), site.facts), other, [env, T.refval(Term("ITEM"))])
+                pred = norm(inst) if inst is not None else None
+                if pred != ("call", "str::as_bytes", (P(2),)):
+                    msgs.append("the raw name bytes are compared with something other than query.as_bytes()")
+            eq_forms.add(cmp_t)
+        n_eq = len(eq_forms)
         rep.require(not msgs and n_eq == 1 and n_false == 1, "by-name", q + ":predicate", wh(cf["span"]), "str == str on strtab.get(sh_name); false when the name is unreadable",
                     "%s: %s" % (q, "; ".join(msgs) or "unexpected path structure"))
 
